@@ -276,6 +276,286 @@ theorem nonrecursive_single_sweep (P : Params IR) (hrec : P.recursive = false) (
     subst hrun
     exact ⟨h1, rfl⟩
 
+/-! ## worklist bookkeeping seen through the driver
+
+The C12 refinement applied to the worklist operations the driver itself performs: which op is
+handed to the pattern next, which ops a rewriter call takes off / puts on / leaves on the worklist.
+These are the facts a wrong index in `Worklist.push`/`remove` voids (an erased op that stays
+queued, a live queued op that is silently dropped). -/
+
+/-- the ops a call removes from the worklist (`_handle_operation_removal`: the erased op and every
+op nested in it) -/
+def Action.unqueued : Action → List Nat
+  | .erase op nested _ => op :: nested
+  | _ => []
+
+/-- the ops a call pushes in recursive mode (`_handle_operation_insertion/_modification/
+_replacement`, `_add_operands_to_worklist`) -/
+def Action.queued : Action → List Nat
+  | .insert op _ => [op]
+  | .replaced _ users => users
+  | .rauw _ users => users
+  | .erase _ _ defs => defs
+  | .modify op => [op]
+  | _ => []
+
+/-- Exact worklist effect of one rewriter call, as a set: afterwards the worklist holds what it
+held before plus (recursive mode) the ops the handlers push, minus the erased op and the ops nested
+in it — nothing else comes or goes. -/
+theorem exec_worklist_spec (r : Bool) (s : St) (a : Action) (h : Inv s.wl) (y : Nat) :
+    y ∈ abs (exec r s a).wl ↔
+      ((y ∈ abs s.wl ∨ (r = true ∧ y ∈ a.queued)) ∧ y ∉ a.unqueued) := by
+  cases a <;> cases r <;>
+    simp only [exec, if_true, if_false, Bool.false_eq_true, Action.queued, Action.unqueued,
+      List.not_mem_nil, not_false_eq_true, and_true, false_and, or_false, true_and,
+      (pushAll_spec _ h _).2, (removeAll_spec _ h _).2,
+      (removeAll_spec _ (pushAll_spec _ h _).1 _).2, List.mem_singleton]
+
+/-- "Patterns are never invoked on erased operations", worklist side: after `erase(op)` neither `op`
+nor any op nested in it is queued, whatever was pushed during the same call. -/
+theorem erase_unqueues (r : Bool) (s : St) (op : Nat) (nested defs : List Nat) (h : Inv s.wl) :
+    ∀ y ∈ op :: nested, y ∉ abs (exec r s (.erase op nested defs)).wl := by
+  intro y hy hmem
+  rw [exec_worklist_spec r s _ h y] at hmem
+  exact hmem.2 hy
+
+/-- A queued op stays queued through every rewriter call that does not erase it (or an ancestor):
+no live op is silently dropped. -/
+theorem exec_keeps_queued (r : Bool) (s : St) (a : Action) (h : Inv s.wl) (y : Nat)
+    (hy : y ∈ abs s.wl) (hne : y ∉ a.unqueued) : y ∈ abs (exec r s a).wl :=
+  (exec_worklist_spec r s a h y).2 ⟨Or.inl hy, hne⟩
+
+/-- In recursive mode every op a handler is told about (inserted, modified, user of a replaced
+value, single-use operand definer of an erased op) is queued after the call, unless the same call
+erased it. -/
+theorem exec_queues_notified (s : St) (a : Action) (h : Inv s.wl) (y : Nat)
+    (hy : y ∈ a.queued) (hne : y ∉ a.unqueued) : y ∈ abs (exec true s a).wl :=
+  (exec_worklist_spec true s a h y).2 ⟨Or.inr ⟨rfl, hy⟩, hne⟩
+
+/-- LIFO schedule: the op handed to the pattern next is the top of the abstract stack, and the
+rest of the stack is exactly what remains queued. -/
+theorem pop_lifo_top (w w' : WL) (x : Nat) (h : Inv w) (hp : popNext none w = some (x, w')) :
+    abs w = x :: abs w' := by
+  obtain ⟨e1, e2, e3⟩ := Worklist.step_refines w h .isEmpty
+  unfold popNext at hp
+  generalize hq : Worklist.step w .isEmpty = q at hp e1 e2 e3
+  obtain ⟨w1, o⟩ := q
+  simp only [Worklist.Spec.step] at e1 e2
+  simp only at e1 e2 e3
+  subst e1
+  cases hl : abs w with
+  | nil => simp [hl] at hp
+  | cons a t =>
+    simp only [hl, List.isEmpty_cons, Bool.not_false] at hp
+    obtain ⟨p1, p2, p3⟩ := Worklist.step_refines w1 e3 .pop
+    generalize hq2 : Worklist.step w1 .pop = q2 at hp p1 p2 p3
+    obtain ⟨w2, o2⟩ := q2
+    simp only at p1 p2 p3
+    rw [e2, hl] at p1 p2
+    simp only [Worklist.Spec.step] at p1 p2
+    subst p1
+    simp only [Option.some.injEq, Prod.mk.injEq] at hp
+    obtain ⟨rfl, rfl⟩ := hp
+    rw [p2]
+
+/-- Perturbed schedule: the op handed to the pattern was queued, and exactly that op leaves the
+worklist (order of the others unchanged). -/
+theorem pop_pick_removes (f : List Nat → Nat) (w w' : WL) (x : Nat) (h : Inv w)
+    (hp : popNext (some f) w = some (x, w')) :
+    x ∈ abs w ∧ abs w' = (abs w).filter (· ≠ x) := by
+  obtain ⟨e1, e2, e3⟩ := Worklist.step_refines w h .isEmpty
+  unfold popNext at hp
+  generalize hq : Worklist.step w .isEmpty = q at hp e1 e2 e3
+  obtain ⟨w1, o⟩ := q
+  simp only [Worklist.Spec.step] at e1 e2
+  simp only at e1 e2 e3
+  subst e1
+  cases hne : (abs w).isEmpty with
+  | true => simp [hne] at hp
+  | false =>
+    simp only [hne, Bool.not_false] at hp
+    cases hg : (abs w1)[f (abs w1) % (abs w1).length]? with
+    | none => simp [hg] at hp
+    | some z =>
+      simp only [hg, Option.some.injEq, Prod.mk.injEq] at hp
+      obtain ⟨rfl, rfl⟩ := hp
+      obtain ⟨_, r2, _⟩ := Worklist.step_refines w1 e3 (.remove z)
+      refine ⟨by rw [← e2]; exact List.mem_of_getElem? hg, ?_⟩
+      rw [r2, e2]; simp [Worklist.Spec.step]
+
+/-! ## histories of calls on one walker: who hears what -/
+
+theorem view_append (h : Nat) (a b : List (Nat × Event)) : view h (a ++ b) = view h a ++ view h b := by
+  simp [view]
+
+theorem view_deliver_mem (h : Nat) (hs : List Nat) (log : List Event) (hn : hs.Nodup) (hm : h ∈ hs) :
+    view h (deliver hs log) = log := by
+  induction log with
+  | nil => simp [view, deliver]
+  | cons e t ih =>
+    have hone : ((hs.map fun k => (k, e)).filter fun p => p.1 == h).map (·.2) = [e] := by
+      clear ih
+      induction hs with
+      | nil => cases hm
+      | cons k r ihr =>
+        rw [List.nodup_cons] at hn
+        by_cases hk : k = h
+        · subst hk
+          have : ((r.map fun k' => (k', e)).filter fun p => p.1 == k) = [] := by
+            rw [List.filter_eq_nil_iff]
+            intro p hp
+            rw [List.mem_map] at hp
+            obtain ⟨k', hk', rfl⟩ := hp
+            simp only [beq_iff_eq]
+            rintro rfl; exact hn.1 hk'
+          simp [this]
+        · have hm' : h ∈ r := by
+            rcases List.mem_cons.mp hm with h1 | h1
+            · exact absurd h1.symm hk
+            · exact h1
+          simp [hk, ihr hn.2 hm']
+    simp only [view, deliver, List.flatMap_cons, List.filter_append, List.map_append] at ih ⊢
+    rw [hone, ih]; rfl
+
+theorem view_deliver_not_mem (h : Nat) (hs : List Nat) (log : List Event) (hm : h ∉ hs) :
+    view h (deliver hs log) = [] := by
+  simp only [view, deliver, List.map_eq_nil_iff, List.filter_eq_nil_iff, List.mem_flatMap, List.mem_map]
+  rintro p ⟨e, _, k, hk, rfl⟩
+  simp only [beq_iff_eq]
+  rintro rfl; exact hm hk
+
+/-- listener edits do not deliver anything -/
+theorem edits_delivered (es : List Edit) (v : Walker) : (es.foldl Walker.edit v).delivered = v.delivered := by
+  induction es generalizing v with
+  | nil => rfl
+  | cons e1 t1 ih => rw [List.foldl_cons, ih]; cases e1 <;> rfl
+
+/-- One call delivers its whole listener log — which by `log_eq` is the concatenation of the
+events of the calls executed during it — to the handlers registered on `walker.listener` **when
+the call is made**, and to nobody else. -/
+theorem call_delivers (P : Params IR) (fuel : Nat) (w w' : Walker) (ir : IR) (att : List Nat)
+    (d : D IR) (b : Bool) (hc : call P fuel w ir att = some (w', d, b)) :
+    w'.registered = w.registered ∧
+    w'.delivered = w.delivered ++ deliver w.registered d.st.log ∧
+    rewriteRegion P fuel { ir := ir, st := { attached := att, wl := w.wl } } = some (d, b) := by
+  unfold call at hc
+  split at hc
+  · cases hc
+  · rename_i d0 b0 hr
+    simp only [Option.some.injEq, Prod.mk.injEq] at hc
+    obtain ⟨rfl, rfl, rfl⟩ := hc
+    exact ⟨rfl, rfl, hr⟩
+
+/-- Histories (several `rewrite_region`/`rewrite_module` calls on one walker, with handlers added to
+`walker.listener` or the listener replaced in between): what a handler has received at the end is
+exactly, in order, the listener logs of the calls during which it was registered — a handler added
+or assigned after an earlier call hears everything from the next call on, a replaced one nothing. -/
+theorem history_view (P : Params IR) (fuel : Nat) (h : Nat) :
+    ∀ (stages : List (Stage IR)) (w w' : Walker) (ir ir' : IR) (recs : List CallRec),
+      history P fuel w ir stages = some (w', ir', recs) →
+      (∀ c ∈ recs, c.registered.Nodup) →
+      view h w'.delivered =
+        view h w.delivered ++ recs.flatMap fun c => if h ∈ c.registered then c.log else [] := by
+  intro stages
+  induction stages with
+  | nil =>
+    intro w w' ir ir' recs hh _
+    simp only [history, Option.some.injEq, Prod.mk.injEq] at hh
+    obtain ⟨rfl, _, rfl⟩ := hh
+    simp
+  | cons s rest ih =>
+    intro w w' ir ir' recs hh hn
+    simp only [history] at hh
+    split at hh
+    · cases hh
+    · rename_i w2 d b hcall
+      split at hh
+      · cases hh
+      · rename_i w3 ir3 recs3 hrest
+        simp only [Option.some.injEq, Prod.mk.injEq] at hh
+        obtain ⟨rfl, _, rfl⟩ := hh
+        obtain ⟨c1, c2, _⟩ := call_delivers P fuel _ _ _ _ _ _ hcall
+        have hn' : ∀ c ∈ recs3, c.registered.Nodup := fun c hc => hn c (List.mem_cons_of_mem _ hc)
+        have hn0 := hn _ List.mem_cons_self
+        simp only at hn0
+        rw [ih w2 w3 d.ir ir3 recs3 hrest hn', c2, view_append, List.flatMap_cons, List.append_assoc]
+        rw [edits_delivered]
+        congr 1
+        show view h (deliver _ _) ++ _ = (if h ∈ (s.edits.foldl Walker.edit w).registered then d.st.log else []) ++ _
+        congr 1
+        by_cases hm : h ∈ (s.edits.foldl Walker.edit w).registered
+        · rw [if_pos hm, view_deliver_mem h _ _ hn0 hm]
+        · rw [if_neg hm, view_deliver_not_mem h _ _ hm]
+
+/-- The notification clause for histories: every event the sentence demands of a rewriter call
+executed during some call of the history has been delivered to every handler that was registered
+when that call was made (same exception as `all_notified_partial`: operand rewrites of
+`inline_block`).  `hfresh`: the ghost log/executed lists start empty at each call (they do: `call`
+builds a fresh `St`). -/
+theorem history_all_notified_partial (P : Params IR) (fuel : Nat) :
+    ∀ (stages : List (Stage IR)) (w w' : Walker) (ir ir' : IR) (recs : List CallRec),
+      history P fuel w ir stages = some (w', ir', recs) →
+      ∀ c ∈ recs, ∀ h ∈ c.registered, ∀ a ∈ c.executed,
+        (∀ m u, a = .inlineBlock m u → u = []) → ∀ e ∈ a.demanded, (h, e) ∈ w'.delivered := by
+  intro stages
+  induction stages with
+  | nil =>
+    intro w w' ir ir' recs hh c hc
+    simp only [history, Option.some.injEq, Prod.mk.injEq] at hh
+    obtain ⟨_, _, rfl⟩ := hh
+    cases hc
+  | cons s rest ih =>
+    intro w w' ir ir' recs hh c hc h hh' a ha hin e he
+    simp only [history] at hh
+    split at hh
+    · cases hh
+    · rename_i w2 d b hcall
+      split at hh
+      · cases hh
+      · rename_i w3 ir3 recs3 hrest
+        simp only [Option.some.injEq, Prod.mk.injEq] at hh
+        obtain ⟨rfl, _, rfl⟩ := hh
+        obtain ⟨c1, c2, c3⟩ := call_delivers P fuel _ _ _ _ _ _ hcall
+        -- delivered only grows along the rest of the history
+        have hgrow : ∀ x ∈ w2.delivered, x ∈ w3.delivered := by
+          have hv : ∀ (stages : List (Stage IR)) (u u' : Walker) (i i' : IR) (rs : List CallRec),
+              history P fuel u i stages = some (u', i', rs) → ∀ x ∈ u.delivered, x ∈ u'.delivered := by
+            intro stages
+            induction stages with
+            | nil =>
+              intro u u' i i' rs hu x hx
+              simp only [history, Option.some.injEq, Prod.mk.injEq] at hu
+              obtain ⟨rfl, _, _⟩ := hu; exact hx
+            | cons s2 r2 ih2 =>
+              intro u u' i i' rs hu x hx
+              simp only [history] at hu
+              split at hu
+              · cases hu
+              · rename_i u2 d2 b2 hc2
+                split at hu
+                · cases hu
+                · rename_i u3 i3 rs3 hr3
+                  simp only [Option.some.injEq, Prod.mk.injEq] at hu
+                  obtain ⟨rfl, _, _⟩ := hu
+                  obtain ⟨_, q2, _⟩ := call_delivers P fuel _ _ _ _ _ _ hc2
+                  apply ih2 u2 u3 d2.ir i3 rs3 hr3
+                  rw [q2]
+                  apply List.mem_append_left
+                  rw [edits_delivered]; exact hx
+          exact hv rest w2 w3 d.ir ir3 recs3 hrest
+        rcases List.mem_cons.mp hc with rfl | hc'
+        · apply hgrow
+          rw [c2]
+          apply List.mem_append_right
+          obtain ⟨es, x1, x2⟩ := all_notified_partial P fuel _ _ c3
+          simp only [List.nil_append] at x1
+          simp only at ha
+          rw [x1] at ha
+          have hlog := x2 a ha hin e he
+          simp only [deliver, List.mem_flatMap, List.mem_map]
+          exact ⟨e, hlog, h, hh', rfl⟩
+        · exact ih w2 w3 d.ir ir3 recs3 hrest c hc' h hh' a ha hin e he
+
 /-! ## non-vacuity -/
 
 /-- A concrete run: `IR = Nat` counts the remaining applications of a countdown pattern on op `1`;
@@ -324,5 +604,16 @@ example (pk : Option (Nat → List Nat → Nat)) : ThroughRewriter (demoParams p
         simp [h1, h2, Action.setsFlag] at h
   post_quiet := by intro f _ hf; simp [demoParams] at hf
   enum_all := by intro ir att y hy; simpa [demoParams] using hy
+
+/-- A history on one walker: first call with handler `7` registered, then handler `8` is added and
+the IR is re-armed; `8` hears the second call only, `7` both. -/
+example : (history (demoParams none) 50 { registered := [7] } 1
+    [{ edits := [], prep := fun n => (n, [0, 1]) },
+     { edits := [.add 8], prep := fun _ => (1, [1]) }]).map
+    (fun r => (view 7 r.1.delivered, view 8 r.1.delivered, r.2.2.map (·.ret))) =
+    some ([.removed 0, .modified 1, .modified 1], [.modified 1], [true, true]) := by decide
+
+/-- the erased op leaves the worklist even when the same call re-queues it as an operand definer -/
+example : abs (exec true { wl := pushAll {} [3, 2, 1] } (.erase 2 [] [2, 3])).wl = [1, 3] := by decide
 
 end Xdsl.RewriteDriver
